@@ -86,3 +86,210 @@ fn c12_native_solve_exhaustive_n2() {
     });
     assert!(n > 1_000_000);
 }
+
+// ===================================================================== n = 3
+// BOUNDED/TEST.  All real-part matrices over a small integer grid, each combined with fixed,
+// non-symmetric integer eps patterns (real and eps parts vary together).  An INDEPENDENT exact
+// elimination in rational arithmetic (same pivot rule as the crate: largest |re| in the
+// column, first maximum wins) classifies every matrix:
+//   * singular   : some step has no non-zero candidate pivot
+//   * kept       : regular and every pivot real part is +- a power of two  => every float
+//                  operation of LU::new / solve / determinant / inverse is exact
+//   * rejected   : regular but some pivot is not a power of two (rounding possible; skipped,
+//                  except that Ok is still required)
+// and records the row-exchange pattern.
+#[derive(Clone, Copy, PartialEq, Debug)]
+struct Fr(i64, i64); // numerator, denominator > 0, reduced
+fn gcd(a: i64, b: i64) -> i64 {
+    if b == 0 { a.abs() } else { gcd(b, a % b) }
+}
+impl Fr {
+    fn new(n: i64, d: i64) -> Fr {
+        let g = gcd(n, d).max(1);
+        let s = if d < 0 { -1 } else { 1 };
+        Fr(s * n / g, s * d / g)
+    }
+    fn sub(self, o: Fr) -> Fr {
+        Fr::new(self.0 * o.1 - o.0 * self.1, self.1 * o.1)
+    }
+    fn mul(self, o: Fr) -> Fr {
+        Fr::new(self.0 * o.0, self.1 * o.1)
+    }
+    fn div(self, o: Fr) -> Fr {
+        Fr::new(self.0 * o.1, self.1 * o.0)
+    }
+    fn abs_gt(self, o: Fr) -> bool {
+        self.0.abs() * o.1 > o.0.abs() * self.1
+    }
+    fn is_pm_pow2(self) -> bool {
+        let p2 = |x: i64| x > 0 && (x & (x - 1)) == 0;
+        p2(self.0.abs()) && p2(self.1)
+    }
+}
+#[derive(Default, Debug)]
+struct Elim {
+    singular: bool,
+    pivots_pow2: bool,
+    /// imax - i at step 0 and step 1 (0 = no exchange)
+    exch: [usize; 2],
+}
+/// reference elimination on the real parts, exact
+fn reference_elimination(r: &[[i64; 3]; 3]) -> Elim {
+    let mut a = [[Fr(0, 1); 3]; 3];
+    for i in 0..3 { for j in 0..3 { a[i][j] = Fr(r[i][j], 1); } }
+    let mut out = Elim { singular: false, pivots_pow2: true, exch: [0, 0] };
+    for i in 0..3 {
+        let (mut max, mut imax) = (Fr(0, 1), i);
+        for k in i..3 {
+            if a[k][i].abs_gt(max) { max = a[k][i]; imax = k; }
+        }
+        if max.0 == 0 { out.singular = true; return out; }
+        if i < 2 { out.exch[i] = imax - i; }
+        a.swap(i, imax);
+        if !a[i][i].is_pm_pow2() { out.pivots_pow2 = false; }
+        for j in i + 1..3 {
+            let l = a[j][i].div(a[i][i]);
+            for k in i..3 { a[j][k] = a[j][k].sub(l.mul(a[i][k])); }
+        }
+    }
+    out
+}
+/// dual number with integer parts
+#[derive(Clone, Copy)]
+struct ID(i64, i64);
+impl ID {
+    fn mul(self, o: ID) -> ID { ID(self.0 * o.0, self.0 * o.1 + self.1 * o.0) }
+    fn sub(self, o: ID) -> ID { ID(self.0 - o.0, self.1 - o.1) }
+    fn add(self, o: ID) -> ID { ID(self.0 + o.0, self.1 + o.1) }
+}
+/// cofactor determinant in dual-integer arithmetic (eps part = Jacobi's formula)
+fn det3(m: &[[ID; 3]; 3]) -> ID {
+    let c = |a: ID, b: ID, c: ID, d: ID| a.mul(d).sub(b.mul(c));
+    m[0][0].mul(c(m[1][1], m[1][2], m[2][1], m[2][2]))
+        .sub(m[0][1].mul(c(m[1][0], m[1][2], m[2][0], m[2][2])))
+        .add(m[0][2].mul(c(m[1][0], m[1][1], m[2][0], m[2][1])))
+}
+/// fixed eps patterns: non-symmetric; the first has 9 distinct entries
+const EPS3: [[[i64; 3]; 3]; 3] = [
+    [[1, -2, 3], [-4, 5, -6], [7, -8, 9]],
+    [[0, 1, 0], [2, 0, -1], [0, 0, 3]],
+    [[-3, 1, 4], [1, -5, 9], [2, 6, -7]],
+];
+/// right-hand sides (re, eps)
+const RHS3: [[(i64, i64); 3]; 3] = [
+    [(1, 2), (-2, 1), (3, -4)],
+    [(0, 1), (1, 0), (-1, 3)],
+    [(2, -1), (2, 5), (-3, 0)],
+];
+
+#[derive(Default, Debug)]
+struct Counts {
+    enumerated: u64,
+    singular: u64,
+    /// singular in exact arithmetic, but an earlier pivot is not a power of two, so the zero
+    /// candidates need not be exact zeros in floats: not asserted
+    singular_after_rounding_pivot_skipped: u64,
+    kept: u64,
+    rejected_non_pow2_pivot: u64,
+    exchange_step0: u64,
+    exchange_step1: u64,
+    pivot_two_rows_below: u64,
+    exchange_step0_and_step1: u64,
+    lu_runs: u64,
+    solves: u64,
+}
+fn lu_exhaustive_n3(grid: &[i64]) -> Counts {
+    let mut c = Counts::default();
+    let g = grid.len();
+    let mut idx = [0usize; 9];
+    loop {
+        let mut r = [[0i64; 3]; 3];
+        for t in 0..9 { r[t / 3][t % 3] = grid[idx[t]]; }
+        c.enumerated += 1;
+        let e = reference_elimination(&r);
+        if e.singular {
+            c.singular += 1;
+            if !e.pivots_pow2 { c.singular_after_rounding_pivot_skipped += 1 }
+        } else if e.pivots_pow2 {
+            c.kept += 1;
+            if e.exch[0] > 0 { c.exchange_step0 += 1 }
+            if e.exch[1] > 0 { c.exchange_step1 += 1 }
+            if e.exch[0] == 2 { c.pivot_two_rows_below += 1 }
+            if e.exch[0] > 0 && e.exch[1] > 0 { c.exchange_step0_and_step1 += 1 }
+        } else {
+            c.rejected_non_pow2_pivot += 1;
+        }
+        for ep in EPS3.iter() {
+            let mut id = [[ID(0, 0); 3]; 3];
+            let mut a = [[d(0, 0); 3]; 3];
+            for i in 0..3 { for j in 0..3 { id[i][j] = ID(r[i][j], ep[i][j]); a[i][j] = d(r[i][j], ep[i][j]); } }
+            let lu = LU::<Dual64, f64>::new(arr2(&a));
+            c.lu_runs += 1;
+            // (1) singular <=> Err  (pivots before the zero column are powers of two on the
+            //     grids used here whenever the reference says so; otherwise only Ok is required)
+            if e.singular {
+                // pivots_pow2 here = all pivots BEFORE the zero column are powers of two, i.e.
+                // the zero candidates are exact zeros in float arithmetic as well
+                if e.pivots_pow2 {
+                    assert!(lu.is_err(), "(1) singular real part must be reported as Err: {r:?}");
+                }
+                continue;
+            }
+            let lu = lu.unwrap_or_else(|_| panic!("(1) regular real part reported singular: {r:?}"));
+            if !e.pivots_pow2 {
+                continue;
+            }
+            // (2) determinant, re and eps
+            let want = det3(&id);
+            let got = lu.determinant();
+            assert!(got.re == want.0 as f64 && got.eps == want.1 as f64,
+                "(2) determinant() = {got}, expected {} + {}eps for {r:?} eps {ep:?} (exchanges {:?})", want.0, want.1, e.exch);
+            // (3) A solve(b) == b
+            for rhs in RHS3.iter() {
+                let b = [d(rhs[0].0, rhs[0].1), d(rhs[1].0, rhs[1].1), d(rhs[2].0, rhs[2].1)];
+                let x = lu.solve(&arr1(&b));
+                c.solves += 1;
+                for i in 0..3 {
+                    let p = a[i][0] * x[0] + a[i][1] * x[1] + a[i][2] * x[2];
+                    assert!(deq(p, b[i]), "(3) (A x)[{i}] = {p} != {} for {r:?} eps {ep:?} (exchanges {:?})", b[i], e.exch);
+                }
+            }
+            // (4) A A^-1 == I and A^-1 A == I
+            let ia = lu.inverse();
+            for i in 0..3 {
+                for j in 0..3 {
+                    let want = if i == j { d(1, 0) } else { d(0, 0) };
+                    let p = a[i][0] * ia[(0, j)] + a[i][1] * ia[(1, j)] + a[i][2] * ia[(2, j)];
+                    assert!(deq(p, want), "(4) (A A^-1)[{i}][{j}] = {p} for {r:?} eps {ep:?} (exchanges {:?})", e.exch);
+                    let q = ia[(i, 0)] * a[0][j] + ia[(i, 1)] * a[1][j] + ia[(i, 2)] * a[2][j];
+                    assert!(deq(q, want), "(4) (A^-1 A)[{i}][{j}] = {q} for {r:?} eps {ep:?} (exchanges {:?})", e.exch);
+                }
+            }
+        }
+        // next index vector
+        let mut t = 0;
+        while t < 9 {
+            idx[t] += 1;
+            if idx[t] < g { break; }
+            idx[t] = 0;
+            t += 1;
+        }
+        if t == 9 { break; }
+    }
+    assert!(c.exchange_step1 > 0 && c.pivot_two_rows_below > 0 && c.exchange_step0_and_step1 > 0 && c.singular > 0,
+        "every row-exchange pattern is exercised: {c:?}");
+    c
+}
+
+/// all 3^9 = 19 683 real-part matrices with entries in {-1, 0, 1}
+#[test]
+fn c12_native_lu_exhaustive_n3_grid1() {
+    let c = lu_exhaustive_n3(&[-1, 0, 1]);
+    println!("EVIDENCE grid {{-1,0,1}}, 3 eps patterns, 3 rhs: {c:?}");
+}
+/// all 5^9 = 1 953 125 real-part matrices with entries in -2..=2
+#[test]
+fn c12_native_lu_exhaustive_n3_grid2() {
+    let c = lu_exhaustive_n3(&[-2, -1, 0, 1, 2]);
+    println!("EVIDENCE grid -2..=2, 3 eps patterns, 3 rhs: {c:?}");
+}
